@@ -121,8 +121,10 @@ def run(ctx):
     ctx.cov["rule"] = (
         "events = real HybridEncrypt.Encrypt / HybridDecrypt.Decrypt calls over (HPKE: 7 KEMs x 3 KDFs x 3 AEADs; ECIES: 3 curves "
         "x 5 hashes x 3 point formats x 5 DEMs x salt classes) x variant x key id (incl. 0, 0xffffffff) x route (keyset factory, "
-        "key templates, hybrid/subtle) x plaintext length class x context class; per ciphertext: Tink->reference decryption, "
-        "Tink's own decryption, and Decrypt of mutations of every region (prefix, encapsulated key incl. off-curve / small-order / "
+        "key templates, hybrid/subtle, keysets of two raw keys with the matching key second) x plaintext length class x context "
+        "class; every logged input is a copy Tink never had access to; per ciphertext: Tink->reference decryption (and of a second "
+        "Encrypt from the same plaintext/context buffers), Tink's own decryption TWICE from the same buffer and once more after a "
+        "failing wrong-context attempt on the same buffer (each call its own event), and Decrypt of mutations of every region (prefix, encapsulated key incl. off-curve / small-order / "
         "negated points, payload, tag), of the context, with another private key, at cut points (all of them in the thorough tier "
         "for one ciphertext per configuration) and extensions; plus reference-made ciphertexts (TLC, chosen ephemeral keys) "
         "decrypted by Tink. Every event is judged by TLC against HPKE.tla / XWing.tla / ECIES.tla")
@@ -152,7 +154,8 @@ def run(ctx):
         k = "%s/%s" % (e["ev"], e.get("kind", ""))
         kinds[k] = kinds.get(k, 0) + 1
     ctx.cov["event_kinds"] = kinds
-    for need in () if os.environ.get("VERIF_C06_FILTER") else ("encrypt/tink", "decrypt/own", "decrypt/reference-made", "decrypt/enc-flip", "decrypt/payload-flip",
+    for need in () if os.environ.get("VERIF_C06_FILTER") else ("encrypt/tink", "encrypt/tink-again-same-buffers", "decrypt/own", "decrypt/again-same-buffer",
+                                                                  "decrypt/after-wrong-context-same-buffer", "encrypt/tink-2rawkeys", "decrypt/reference-made", "decrypt/enc-flip", "decrypt/payload-flip",
                  "decrypt/prefix-start", "decrypt/info-flip", "decrypt/other-key", "decrypt/cut"):
         if not kinds.get(need):
             raise vlib.Infra("coverage hole: no %s event was recorded" % need)
